@@ -76,15 +76,18 @@ Theorem c09_param_types :
      (vt a <> untypedInt -> vt a <> TypeNil -> Value_assign a t = a)).
 Proof. exact (conj entry_slot (conj entry_slot_local assign_cases)). Qed.
 
-(* 3. Variadic functions.  CALL: the surplus arguments become ONE new slice appended to the heap,
-   element type the declared one, cells the surplus arguments assigned to it in order; the call then
-   is the exact-count call with that slice as last argument.  Fewer arguments than fixed parameters:
-   an error.  CALLVARIADIC (pack = false): the spread slice value itself is the last parameter. *)
+(* 3. Variadic functions.  CALL with at least one surplus argument: the surplus arguments become ONE new
+   slice appended to the heap, element type the declared one, cells the surplus arguments assigned to it
+   in order; the call then is the exact-count call with that slice as last argument.  CALL without surplus
+   arguments: the last argument is the NIL slice of the declared variadic type (tag vtype, no object
+   part: xs == nil holds in the callee) and the heap is untouched: the exact-count call runs on the very
+   same state.  Fewer arguments than fixed parameters: an error.  CALLVARIADIC (pack = false): the spread
+   slice value itself is the last parameter. *)
 Theorem c09_variadic :
   forall grow ext_get ext_set ext_len ext_getattr ext_setattr
          fuel fa xRets pos s nargs nrets vtype nslots types body,
   hget s fa = Some (HFunc nargs nrets true vtype nslots types body) ->
-  (forall fixed extra lo, zlen fixed = nargs - 1 ->
+  (forall fixed extra lo, zlen fixed = nargs - 1 -> 1 <= zlen extra ->
      let e := Type_value vtype in
      let cells := map (fun a => Value_assign a e) extra in
      let s1 := fst (new_slice s e cells) in
@@ -95,6 +98,11 @@ Theorem c09_variadic :
              (rev (fixed ++ [sv]) ++ lo)%list s1 /\
      sv = refV (fn_sliceType e) (zlen (heap s) + 1) /\
      heap s1 = (heap s ++ [HArr cells; HSlice e (zlen (heap s)) 0 (zlen extra) (zlen extra)])%list) /\
+  (forall fixed lo, zlen fixed = nargs - 1 ->
+     call_fn grow ext_get ext_set ext_len ext_getattr ext_setattr (S fuel) true fa (zlen fixed) xRets pos
+             (rev fixed ++ lo)%list s =
+       call_fn grow ext_get ext_set ext_len ext_getattr ext_setattr (S fuel) false fa nargs xRets pos
+             (rev (fixed ++ [mkValue vtype (Zn 0) PNone]) ++ lo)%list s) /\
   (forall xArgs ops, xArgs < nargs - 1 ->
      call_fn grow ext_get ext_set ext_len ext_getattr ext_setattr (S fuel) true fa xArgs xRets pos ops s =
        CErr (RFail "runtime error" pos s)) /\
@@ -109,9 +117,10 @@ Theorem c09_variadic :
      heap (push_bt s pos) = heap s).
 Proof.
   exact (fun grow ext_get ext_set ext_len ext_getattr ext_setattr fuel fa xRets pos s nargs nrets vtype nslots types body H =>
-    conj (fun fixed extra lo HF => call_variadic_pack grow ext_get ext_set ext_len ext_getattr ext_setattr fuel fa xRets pos fixed extra lo s nargs nrets vtype nslots types body H HF)
+    conj (fun fixed extra lo HF HE => call_variadic_pack grow ext_get ext_set ext_len ext_getattr ext_setattr fuel fa xRets pos fixed extra lo s nargs nrets vtype nslots types body H HF HE)
+   (conj (fun fixed lo HF => call_variadic_none grow ext_get ext_set ext_len ext_getattr ext_setattr fuel fa xRets pos fixed lo s nargs nrets vtype nslots types body H HF)
    (conj (fun xArgs ops HX => call_variadic_few grow ext_get ext_set ext_len ext_getattr ext_setattr fuel fa xArgs xRets pos ops s nargs nrets vtype nslots types body H HX)
-         (fun fixed sv lo HF HT H1 H2 => call_spread grow ext_get ext_set ext_len ext_getattr ext_setattr fuel fa xRets pos fixed sv lo s nargs nrets vtype nslots types body H HF HT H1 H2))).
+         (fun fixed sv lo HF HT H1 H2 => call_spread grow ext_get ext_set ext_len ext_getattr ext_setattr fuel fa xRets pos fixed sv lo s nargs nrets vtype nslots types body H HF HT H1 H2)))).
 Qed.
 
 (* 4. Every recursion depth.  Frame isolation for the mutual fixpoint exec / call_fn at EVERY fuel
@@ -188,7 +197,9 @@ Print Assumptions c09_method.
    constants 3 and 7 above an unrelated operand: the results arrive as uint8 7 and float64 3.0 on top of
    it; one argument: "incorrect args"; three results requested: "incorrect returns".
    (b) g(base int, xs ...float64) int { return len(xs) } called with 1, 2, 3, 4: one new slice of three
-   float64 cells.  (c) the code the compiler emits for
+   float64 cells; called with 1 alone: len 0 and the heap is unchanged (nothing allocated);
+   h(xs ...float64) []float64 { return xs } called without arguments answers the nil []float64.
+   (c) the code the compiler emits for
    func sum(n int) int { if n == 0 { return 0 }; return n + sum(n-1) };  fmt.Println(sum(3000))
    run by the model: 3000 nested frames, prints 4501500. *)
 Example c09_witness :
@@ -203,7 +214,9 @@ Example c09_witness :
              [I c_LocalGet 1; I c_LocalGet 0; I c_Return 0] in
   let gv := HFunc 2 1 true (fn_sliceType TypeFloat64) 2 [TypeInt32; fn_sliceType TypeFloat64; TypeInt32]
              [I c_LocalGet 1; I c_Len 0; I c_Return 0] in
-  let s := mkSt [] [f; gv] [] [] in
+  let hv := HFunc 1 1 true (fn_sliceType TypeFloat64) 1 [fn_sliceType TypeFloat64; fn_sliceType TypeFloat64]
+             [I c_LocalGet 0; I c_Return 0] in
+  let s := mkSt [] [f; gv; hv] [] [] in
   let lo := [fn_String [98]] in
   call_fn grow eg es el ega esa 10 true 0 2 2 77 (rev [Untyped 3; Untyped 7] ++ lo)%list s =
     COk ([F (float_of_Z 3); V U8 7] ++ lo)%list s /\
@@ -211,7 +224,10 @@ Example c09_witness :
   call_fn grow eg es el ega esa 10 true 0 2 3 77 (rev [Untyped 3; Untyped 7] ++ lo)%list s = CErr (RFail "incorrect returns" 77 s) /\
   call_fn grow eg es el ega esa 10 true 1 4 1 77 (rev [Untyped 1; Untyped 2; Untyped 3; Untyped 4] ++ lo)%list s =
     COk (fn_Int 3 :: lo)
-        (mkSt [] [f; gv; HArr [F (float_of_Z 2); F (float_of_Z 3); F (float_of_Z 4)]; HSlice TypeFloat64 2 0 3 3] [] []) /\
+        (mkSt [] [f; gv; hv; HArr [F (float_of_Z 2); F (float_of_Z 3); F (float_of_Z 4)]; HSlice TypeFloat64 3 0 3 3] [] []) /\
+  call_fn grow eg es el ega esa 10 true 1 1 1 77 (rev [Untyped 1] ++ lo)%list s = COk (fn_Int 0 :: lo) s /\
+  call_fn grow eg es el ega esa 10 true 2 0 1 77 lo s =
+    COk (mkValue (fn_sliceType TypeFloat64) (Zn 0) PNone :: lo) s /\
   CorrVM.run_rcase (CorrVM.CRun
     [mkI c_Func (joinParams 1 1) 1 12 0; I c_Pass TypeInt32; I c_Pass TypeInt32;
      I c_LocalGet 0; I c_Push 0; I c_Eq 0; I c_JumpFalse 2; I c_Push 0; I c_Return 1;
